@@ -478,7 +478,8 @@ def run_program(program, formatters=None, reporters=None, features=None, config=
         config = make_config(program.get("cfg") or {})
     texts = None
     if features is None:
-        features, texts = parse_program(program)
+        # "fname_fmt": the feature files live in a deeply nested directory (locations longer than a terminal line)
+        features, texts = parse_program(program, program.get("fname_fmt") or "features/f%d.feature")
     from behave.runner import ModelRunner
     registry = build_registry(plan)
     if runner is None:
